@@ -31,6 +31,8 @@ def main():
     ap.add_argument("--only", nargs="*")
     ap.add_argument("--benign", action="store_true")
     ap.add_argument("--tag", default="w")
+    ap.add_argument("--own", action="store_true", help="benign: only the refactoring's own property's check")
+    ap.add_argument("--skip", nargs="*", default=[])
     a = ap.parse_args()
     head = sh("git -C /repo rev-parse --short HEAD")[1].strip()
     wt = "/tmp/recheck-%s-%d" % (a.tag, os.getpid())
@@ -45,7 +47,7 @@ def main():
         for f in sorted(glob.glob(pat)):
             d = os.path.dirname(f)
             name = os.path.basename(d)
-            if a.only and name not in a.only:
+            if (a.only and name not in a.only) or name in a.skip:
                 continue
             m = json.load(open(f))
             sh("git checkout -q -- . && git clean -fdq dali", cwd=wt)
@@ -56,6 +58,8 @@ def main():
             if a.benign:
                 touched = set(re.findall(r"^\+\+\+ b/(\S+)", open(os.path.join(d, "patch.diff")).read(), re.M))
                 run = [p["id"] for p in props if p["id"] == m["property"] or touched & set(p["anchors"]["files"])]
+                if a.own:
+                    run = [m["property"]]
             else:
                 run = list(dict.fromkeys([m["property"]] + [c for c in (m.get("caught_by") or [])]))
             evtmp = tempfile.mkdtemp(prefix="recheck-")
@@ -69,6 +73,8 @@ def main():
                 lines = [l for l in out.splitlines() if l.startswith(("VIOLATION", "  case", "INCONCLUSIVE"))]
                 results[prop] = {"exit": rc, "seconds": round(time.time() - t, 1), "first_lines": lines[:4]}
             sh("rm -rf %s" % evtmp)
+            if a.own and a.benign:
+                results = dict(m.get("checks", {}), **results)
             m["checks"] = results
             if a.benign:
                 m["alarms"] = [p for p, r in results.items() if r["exit"] == 1]
